@@ -37,6 +37,16 @@ def load_spec():
     return mod
 
 
+class MetricViolation(Exception):
+    """The body uses an operator that cannot be part of any of the published closed forms
+    (tolerance comparison, rounding, clipping, ...): a violation, not an analysis error."""
+
+
+LOSSY = {"np.isclose", "np.allclose", "np.round", "np.around", "np.rint", "np.floor", "np.ceil", "np.trunc", "np.fix",
+         "np.clip", "np.sign", "round", "math.floor", "math.ceil", "math.trunc", "math.isclose", "np.nan_to_num",
+         "np.float32", "np.float16", "np.int32", "np.int64", "int"}
+
+
 class Ops:
     """Symbols and operators for one domain."""
 
@@ -250,6 +260,11 @@ class MetricTranslator:
                     if base[0] == "boolvec":
                         return ("bool", base[1])
             raise AnalysisError(f"{fi.name}: subscript {unparse(node)} outside the whitelist")
+        if isinstance(node, ast.UnaryOp) and isinstance(node.op, (ast.Invert, ast.Not)):
+            k, e = self._expr(node.operand, env, ops, obl, fi, depth)
+            if k in ("bool", "boolvec"):
+                return (k, sp.Not(e))
+            raise AnalysisError(f"{fi.name}: ~ applied to a non-boolean")
         if isinstance(node, ast.UnaryOp) and isinstance(node.op, ast.USub):
             k, e = self._expr(node.operand, env, ops, obl, fi, depth)
             return (k, -e)
@@ -294,6 +309,29 @@ class MetricTranslator:
             args = [self._expr(a, env, ops, obl, fi, depth) for a in node.args]
             if node.keywords:
                 raise AnalysisError(f"{fi.name}: keyword arguments in {f}(...) outside the whitelist")
+            if f in LOSSY:
+                raise MetricViolation(f"{fi.name}:{line}: {f}(...) applies a tolerance / rounding / clipping step that no "
+                                      "published closed form of the 47 metrics contains")
+            if f in ("np.square",) and len(args) == 1:
+                return (args[0][0], args[0][1] ** 2)
+            if f in ("np.power",) and len(args) == 2 and args[1][0] == "scalar" and args[1][1].is_Number:
+                if args[1][1] == sp.Rational(1, 2):
+                    obl.append(Obligation("sqrt", args[0][1], unparse(node.args[0]), line))
+                return (args[0][0], args[0][1] ** args[1][1])
+            if f in ("np.dot",) and len(args) == 2 and args[0][0] == "vec" and args[1][0] == "vec":
+                return ("scalar", S(args[0][1] * args[1][1]))
+            if f in ("np.mean",) and len(args) == 1 and args[0][0] == "vec":
+                return ("scalar", S(args[0][1]) / ops.n)
+            if f in ("np.subtract", "np.add", "np.multiply") and len(args) == 2:
+                kind = "vec" if "vec" in (args[0][0], args[1][0]) else "scalar"
+                a, b = args[0][1], args[1][1]
+                return (kind, a - b if f == "np.subtract" else (a + b if f == "np.add" else a * b))
+            if f in ("np.divide",) and len(args) == 2:
+                kind = "vec" if "vec" in (args[0][0], args[1][0]) else "scalar"
+                obl.append(Obligation("div", args[1][1], unparse(node.args[1]), line))
+                return (kind, args[0][1] / args[1][1])
+            if f in ("len",) and len(args) == 1 and args[0][0] == "vec":
+                return ("scalar", ops.n)
             if f in ("np.sum", "numpy.sum") and len(args) == 1 and args[0][0] == "vec":
                 return ("scalar", S(args[0][1]))
             if f in ("np.amax", "np.max", "numpy.amax") and len(args) == 1 and args[0][0] == "vec":
